@@ -187,6 +187,7 @@ void layer_b(Ctx& c) {
     vnode::QuiesceGuard guard{node, {&peer}};
     std::map<int, MEntry> model;
     std::map<int, std::vector<std::uint8_t>> plain;
+    std::map<int, std::string> manifest_uri;   // manifest of the latest store of each id
 
     auto check_listing = [&]() {
         auto snap = node.stored_chunks();
@@ -219,7 +220,7 @@ void layer_b(Ctx& c) {
                 MEntry e;
                 e.deadline = now() + eff;
                 if (model.count(k)) { e.overwritten = true; e.old_deadline = model[k].deadline; c.label("overwrite"); }
-                node.store_chunk(cid(k), bytes, seconds(ttl));
+                manifest_uri[k] = protocol::encode_manifest(node.store_chunk(cid(k), bytes, seconds(ttl)));
                 auto rec = node.export_chunk_record(cid(k));
                 if (!rec.has_value()) c.fail("C01:live-chunk-not-served", "export_chunk_record right after store returned nothing");
                 e.bytes = rec->data;  // stored (encrypted) bytes; C11 checks they are the right ciphertext
@@ -287,7 +288,16 @@ void layer_b(Ctx& c) {
                 break;
             }
             case 4: c.note("|tick"); node.tick(); break;
-            case 5: c.note("|list"); break;  // the listing is checked after every op
+            case 5: {
+                // what a control-plane FETCH does before it reads the chunk: the chunk's own manifest is ingested again
+                // (the listing itself is checked after every op)
+                if (manifest_uri.count(k) && (r.a(1) & 1)) {
+                    c.note("|reingest(c%d)", k);
+                    node.ingest_manifest(manifest_uri[k]);
+                    c.label("own_manifest_ingested_again");
+                } else c.note("|list");
+                break;
+            }
             case 6:
             case 7: vclock::advance(pick_advance(c, model, r)); break;
         }
